@@ -1,14 +1,21 @@
 package brontide
 
-// Harness for C11, part 4a: the END of the handshake and what follows from it.
+// Harness for C11, DESIGN item 4: the handshake, its end (split) and what
+// follows from it for the two transport directions.
 //
 // Unit (real lnd code, executed symbolically by gosmt):
 //   (*Machine).split, (*symmetricState).mixKey (last key-mixing step before split),
 //   (*cipherState).InitializeKeyWithSalt / InitializeKey / Encrypt / Decrypt / rotateKey,
-//   (*Machine).WriteMessage / Flush / ReadMessage on the cipher states split() produced.
+//   (*Machine).WriteMessage / Flush / ReadMessage on the cipher states split() produced;
+//   for the three acts: NewBrontideMachine, newHandshakeState, EphemeralGenerator,
+//   GenActOne/Two/Three, RecvActOne/Two/Three, symmetricState.{InitializeSymmetric,
+//   mixKey, mixHash, EncryptAndHash, DecryptAndHash}, ecdh, keychain.PrivKeyECDH.{ECDH, PubKey}.
 //
-// Idealised (engine models, /verif/engine/models_c11.go): ChaCha20-Poly1305 and
-// HKDF-SHA256 as uninterpreted functions; natively (replay) the real primitives.
+// Idealised (engine models, /verif/engine/models_c11.go, models_c11b.go):
+// ChaCha20-Poly1305, HKDF-SHA256, SHA-256 as uninterpreted functions; secp256k1
+// scalars/points opaque with a*(b*G) = b*(a*G) by construction (ECDH
+// commutative), point serialisation an uninterpreted function. Natively
+// (replay) the real primitives and the real curve run.
 //
 // This file is self-contained (own reference functions, prefix c11s) and is
 // registered as a unit of its own, so that it is compiled without
@@ -137,7 +144,7 @@ func c11sMachine(tag string, initiator bool, ck [32]byte) *Machine {
 	return m
 }
 
-// c11sSendAt: the side writes msg with its send counter at n; returns the wire bytes.
+// c11sSendTo: the side writes msg and flushes it completely into w.
 func c11sSendTo(m *Machine, w io.Writer, msg []byte) {
 	err := m.WriteMessage(msg)
 	vAssert(err == nil, "WriteMessage accepts a message when nothing is pending")
